@@ -70,6 +70,21 @@ def targets(ctx):
         info = BPInfo.of(type(m))
         return tuple((n, m.is_set(n)) for n, _ in info.fields)
 
+    def sow_vec(m, depth=3, path=""):
+        """serialized_on_wire of the message and of every plain sub-message it holds (what "reports as present" means)."""
+        out = [(path or ".", betterproto.serialized_on_wire(m))]
+        info = BPInfo.of(type(m))
+        for n, meta in info.fields:
+            if meta.proto_type != "message" or depth <= 0:
+                continue
+            try:
+                v = getattr(m, n)
+            except AttributeError:
+                continue
+            if isinstance(v, betterproto.Message):
+                out += sow_vec(v, depth - 1, f"{path}.{n}")
+        return tuple(out)
+
     def deep_read(m, depth=3):
         info = BPInfo.of(type(m))
         for n, meta in info.fields:
@@ -181,6 +196,7 @@ def targets(ctx):
             m = obtain(name, tree, case["source"], case.get("unknown", []), case.get("pos", []))
             equal = obtain(name, tree, case["source"], case.get("unknown", []), case.get("pos", []))
             set0 = is_set_vec(m)  # before anything reads the message
+            sow0 = sow_vec(m)  # ... and before anything encodes it
             b0, s0 = state(m, mi)
             eq0 = guard("eq_initial", lambda: m == equal)
             if eq0 is not True:
@@ -202,6 +218,10 @@ def targets(ctx):
                     out.append((f"observer_changed_snapshot|{what}", f"before={s0!r:.250} after={s1!r:.250}"))
                 if (m == equal) is not eq0:
                     out.append((f"observer_changed_equality|{what}", "m == equal-copy flipped"))
+                sow1 = sow_vec(m)
+                if sow1 != sow0:
+                    diff = [p for (p, a), (_, b) in zip(sow0, sow1) if a != b] if len(sow0) == len(sow1) else ["<shape>"]
+                    out.append((f"observer_changed_serialized_on_wire|{what}", f"serialized_on_wire flipped at {diff}"))
                 set1 = is_set_vec(m)
                 hard = len(out)
                 if set1 != set0:
